@@ -46,6 +46,14 @@ def freeform(rng, gen, size, max_depth=100, p_unknown=0.15):
             c = Node(name())
         p.add_child(c, None if rng.random() < 0.7 else rng.randint(0, len(p.children)))
         nodes.append((c, d + 1))
+    if rng.random() < 0.06:
+        # a very wide node: many children of few names under one parent
+        p, d = rng.choice(nodes)
+        pool = [name() for _ in range(rng.randint(1, 3))]
+        for _ in range(rng.choice([30, 60, 150, 400])):
+            c = Node(rng.choice(pool))
+            p.add_child(c)
+            nodes.append((c, d + 1))
     for n, _ in nodes:
         n.content = text(rng)
         for _ in range(rng.choice([0, 0, 0, 1, 1, 2, 3])):
